@@ -91,7 +91,7 @@ def materialise(v: dict, root: str) -> str:
 
 def real_hash(v: dict, root: str) -> Optional[str]:
     path = materialise(v, root)
-    p, err = defs.parse(path, import_coredefs=False)
+    p, err = defs.parse(path, import_coredefs=False, validate_alignment=not v["place"].get("noalign", 0))
     if err is not None:
         raise RuntimeError(f"version does not compile: {err!r}")
     r = p.message_defs.get("REUSE_M")
